@@ -94,6 +94,16 @@ class MinPathCover(pathmodel.AbstractPathModelDAG):
 
         # Handling node-weighted graphs
         self.cover_type = cover_type
+        # The user-level arguments are forwarded unchanged to the k-path-cover models,
+        # which perform the node expansion (and the condensation of the solution paths) themselves
+        self._user_args = {
+            "G": G,
+            "cover_type": cover_type,
+            "subpath_constraints": subpath_constraints,
+            "elements_to_ignore": elements_to_ignore,
+            "additional_starts": additional_starts,
+            "additional_ends": additional_ends,
+        }
         if self.cover_type == "node":
             if G.number_of_nodes() == 0:
                 utils.logger.error(f"{__name__}: The input graph G has no nodes. Please provide a graph with at least one node.")
@@ -168,15 +178,16 @@ class MinPathCover(pathmodel.AbstractPathModelDAG):
                 i_solver_options["time_limit"] = self.time_limit - self.solve_time_elapsed
 
             model = kpathcover.kPathCover(
-                        G=self.G,
+                        G=self._user_args["G"],
                         k=i,
-                        subpath_constraints=self.subpath_constraints,
+                        cover_type=self._user_args["cover_type"],
+                        subpath_constraints=self._user_args["subpath_constraints"],
                         subpath_constraints_coverage=self.subpath_constraints_coverage,
                         subpath_constraints_coverage_length=self.subpath_constraints_coverage_length,
                         length_attr=self.length_attr,
-                        elements_to_ignore=self.edges_to_ignore,
-                        additional_starts=self.additional_starts,
-                        additional_ends=self.additional_ends,
+                        elements_to_ignore=self._user_args["elements_to_ignore"],
+                        additional_starts=self._user_args["additional_starts"],
+                        additional_ends=self._user_args["additional_ends"],
                         optimization_options=self.optimization_options,
                         solver_options=i_solver_options,
                     )
@@ -231,7 +242,7 @@ class MinPathCover(pathmodel.AbstractPathModelDAG):
     def get_lowerbound_k(self):
 
         if self._lowerbound_k is None:
-            stG = stdag.stDAG(self.G)
-            self._lowerbound_k = stG.get_width(edges_to_ignore=self.edges_to_ignore)
+            # self.G is already the s-t DAG (with the additional starts/ends) whose source/sink edges are in self.edges_to_ignore
+            self._lowerbound_k = self.G.get_width(edges_to_ignore=self.edges_to_ignore)
 
         return self._lowerbound_k
